@@ -18,6 +18,12 @@ same directory with the same argv, so only the environment's answers differ:
   stale    output files of a DIFFERENT run already exist at the output paths
   rerun    nothing changed (a second address-space layout)
 
+  sde      SOURCE_DATE_EPOCH is an input of the property: values 0, 1, 00, 1000000000, INT_MAX,
+           > INT_MAX, -1, " 5", abc, each under both fixed clocks and the real one, must give
+           byte-identical outputs per value (no particular identifier is demanded for odd
+           strings, only that code and database carry the same one); set-but-empty behaves
+           like unset (only the identifier differs)
+
 Quick: all single deviations.  Thorough: also all pairs of deviations from different
 dimensions and m=4 windows.
 
@@ -290,6 +296,28 @@ def nosde_deviations():
     return out
 
 
+SDE_VALUES = ["0", "1", "00", "1000000000", "2147483647", "4102444800", "-1", " 5", "abc"]
+
+
+def sde_value_deviations():
+    """SOURCE_DATE_EPOCH is an input: for every value that is set and non-empty, runs at
+    different instants must agree byte for byte (the first run of each value, at the 2001
+    clock, is that value's reference); set-but-empty is documented to behave like unset."""
+    out = []
+    for v in SDE_VALUES:
+        for clock in (T2001, T2038, None):
+            d = {"sde": "val:" + v}
+            if clock:
+                d["clock"] = clock
+            out.append(d)
+    for clock in (T2001, T2038, None):
+        d = {"sde": "empty"}
+        if clock:
+            d["clock"] = clock
+        out.append(d)
+    return out
+
+
 class Seams:
     def __init__(self, b):
         self.mo = harness.compile_so("mallocorder")
@@ -350,6 +378,10 @@ def apply_dev(dev, seams, b, scen_dir):
         env["TZ"] = dev["tz"]
     if dev.get("sde") == "unset":
         del env["SOURCE_DATE_EPOCH"]
+    elif dev.get("sde") == "empty":
+        env["SOURCE_DATE_EPOCH"] = ""
+    elif dev.get("sde", "").startswith("val:"):
+        env["SOURCE_DATE_EPOCH"] = dev["sde"][4:]
     return env, pre
 
 
@@ -368,6 +400,7 @@ class Scenario:
         self.extra = list(extra_args)
         self.ref = None
         self.stale = None
+        self.sde_refs = {}      # SOURCE_DATE_EPOCH value -> outputs of its first (2001 clock) run
 
     def outputs(self):
         return {"oc": "out.cxx", "od": "out.in", "oh": "out.txt"} if self.tool == "interrogate" else {"oc": "mod.cxx"}
@@ -410,8 +443,8 @@ class Scenario:
                 "outs": outs, "sized": sized, "cmd": cmd}
 
 
-ID_IN_RE = re.compile(rb"\A(\d+)\n")
-ID_CODE_RES = [re.compile(rb"(\n  )(\d+)(,  /\* file_identifier \*/)"),
+ID_IN_RE = re.compile(rb"\A(-?\d+)\n")
+ID_CODE_RES = [re.compile(rb"(\n  )(-?\d+)(,  /\* file_identifier \*/)"),
                re.compile(rb"(_in_module_def = \{\n  )(-?\d+)(,)")]
 
 
@@ -451,7 +484,28 @@ def judge(scen, dev, o):
     if o["rc"] != 0:
         return ["exit status %s (%s)" % (o["rc"], o["stderr"][-200:])]
     ref = scen.ref
-    if dev.get("sde") != "unset":
+    sde = dev.get("sde", "")
+    if sde.startswith("val:"):
+        # the value is an input: same value, different instant => same bytes; whatever number
+        # the tool derives from the value, code and database carry the same one
+        idb, idc, _ = find_ids(o["outs"])
+        if scen.tool == "interrogate":
+            if idb is None or (scen.backend == "pynative" and idc is None):
+                bad.append("file identifier not found (database %s, code %s)" % (idb, idc))
+            elif idc is not None and idb != idc:
+                bad.append("file identifier in the database (%d) differs from the one in the code (%d)" % (idb, idc))
+        if dev.get("clock") == T2001:
+            scen.sde_refs.setdefault(sde, o["outs"])
+        else:
+            gref = scen.sde_refs.get(sde)
+            if gref is None:
+                raise HarnessError("no reference run for %s in %s" % (sde, scen.name))
+            for ch in sorted(gref):
+                if o["outs"][ch] != gref[ch]:
+                    bad.append("SOURCE_DATE_EPOCH=%r: -%s differs between two instants: %s"
+                               % (sde[4:], ch, first_diff(gref[ch], o["outs"][ch])))
+        return bad
+    if sde not in ("unset", "empty"):
         for ch in sorted(ref["outs"]):
             if o["outs"][ch] != ref["outs"][ch]:
                 bad.append("-%s differs from the reference run: %s" % (ch, first_diff(ref["outs"][ch], o["outs"][ch])))
@@ -534,6 +588,9 @@ def main():
         s = byname[rp["detail"]["scenario"]]
         prepare(s, scens)
         dev = rp["detail"]["dev"]
+        if dev.get("sde", "").startswith("val:") and dev.get("clock") != T2001:
+            d0 = {"sde": dev["sde"], "clock": T2001}
+            judge(s, d0, s.run(d0))
         o = s.run(dev)
         bad = judge(s, dev, o)
         print("scenario:", s.name, "deviation:", dev_key(dev))
@@ -545,7 +602,7 @@ def main():
     singles = single_deviations(thorough)
     if not seams.setarch_ok:
         singles = [d for d in singles if "aslr" not in d]
-    levels = [("singles", singles + nosde_deviations())]
+    levels = [("singles", singles + nosde_deviations() + sde_value_deviations())]
     if thorough:
         prs = pair_deviations()
         if not seams.setarch_ok:
@@ -603,8 +660,9 @@ def main():
              "under one environment deviation, compared byte for byte with the scenario's reference run; "
              "non-trivial = any deviation other than the plain re-run",
         exhaustive=True,
-        bound="%d scenarios x (%d single deviations + %d runs without SOURCE_DATE_EPOCH%s)" % (
-            len(scens), len(singles), len(nosde_deviations()),
+        bound="%d scenarios x (%d single deviations + %d runs without SOURCE_DATE_EPOCH + %d SOURCE_DATE_EPOCH "
+              "values x 3 clocks%s)" % (
+            len(scens), len(singles), len(nosde_deviations()), len(SDE_VALUES) + 1,
             " + %d pairs" % len(levels[1][1]) if thorough else ""),
         assumptions=["only the C/POSIX/C.UTF-8 locales exist in this image: other LC_* values change the "
                      "environment block but cannot change libc behaviour (see locale_axis)",
